@@ -6,6 +6,7 @@ from lib.must import Must
 def run(chk):
     cfgj = core.load_json("rules/reset_covers.json")
     resetcovers.run(chk, cfgj)
+    resetcovers.run_embedded(chk, cfgj)
     # C16.b every override of the emitter event handlers runs its base handler on every path
     R2 = "R-CALLS-BASE"
     chk.rule(R2, "every override of on_attach / on_detach / on_reinit calls the handler it overrides on every path to each of its returns "
